@@ -80,8 +80,6 @@ Qed.
 Lemma feqb_refl : forall a, feqb X a a = true.
 Proof. intros. apply (L_feqb X L). reflexivity. Qed.
 
-Lemma fpos_1 : fpos X 1 -> True. Proof. trivial. Qed.
-
 Lemma fpos_nrm : forall s, nrm X s <> 0 -> fpos X (nrm X s).
 Proof. intros s H. split; [apply (L_nrm_pos X L)|exact H]. Qed.
 
